@@ -848,10 +848,11 @@ ldb_recover_log_file(ldb_t *db, uint64_t log_number,
 
   rc = ldb_seqfile_create(fname, &file);
 
-  if (rc != LDB_OK) {
-    ldb_maybe_ignore_error(db, &rc);
+  /* Failing to open a log that the directory lists is an I/O error, not
+     damaged data: skipping it would drop every write it holds and let the
+     log be deleted afterwards, whatever paranoid_checks says. */
+  if (rc != LDB_OK)
     return rc;
-  }
 
   /* Create the log reader. */
   reporter.fname = fname;
